@@ -6,7 +6,7 @@
 (* an alias, an in-segment glob, a collapsed '**' span, a filter, or a     *)
 (* malformation.  TLC checks Unfold = Denote (operational pipeline against *)
 (* the declarative meaning) and the result-shape invariants on every state. *)
-EXTENDS Universe
+EXTENDS Store
 CONSTANTS Family,       \* "unfold" | "findlist" | "match"
           MaxEdits,
           WithGt,       \* TRUE: the '>' edit is part of the family
@@ -56,6 +56,7 @@ Malform == \/ (call.span = 1 /\ N < 9 /\ call' = [call EXCEPT !.search.segs = Ap
 Edit == StarAt \/ GtAt \/ CommaAt \/ GlobAt \/ AliasLast \/ Collapse \/ AddFilter \/ Malform
 
 Universes(i) == IF Family = "unfold" THEN {""}
+                ELSE IF Family = "finders" THEN {IF LeafTs(Templates[i].base) = {} THEN "any:all" ELSE Templates[i].base \o ":complete"}
                 ELSE IF Family = "algebra" THEN {IF LeafTs(Templates[i].base) = {} THEN "any:all" ELSE Templates[i].base \o ":complete"}
                 ELSE LET b == Templates[i].base
                      IN IF LeafTs(b) = {} THEN {"any:all"}
@@ -100,6 +101,7 @@ Next == \/ call.op # "algebra" /\ edits < MaxEdits /\ Edit /\ edits' = edits + 1
 Spec == Init /\ [][Next]_vars
 
 (* ---------------- invariants on the specification ---------------- *)
+AllPathBackedM == LET us == Unfold(Sr).res IN us # {} /\ \A u \in us : ~IsConstType(u.type) /\ \A c \in Cfgs : HasPath(c, u.type)
 U == Unfold(Sr)
 UnfoldIsDenote == U.err = "" => U.res = Denote(Sr)
 ErrorOnlyWhenDenoted ==
@@ -117,6 +119,18 @@ FindSubset == Family = "findlist" => FL.res \subseteq L
 GtOnePerGroup == (Family = "findlist" /\ FL.sorted /\ FL.pre /\ FL.err = "") =>
    LET p == GtPos(CHOOSE u \in U.res : HasGt(u)) IN
       \A a, b \in FL.res : SubSeq(a, 1, p - 1) = SubSeq(b, 1, p - 1) => a = b
+\* C11 on the model: every finder follows its own mechanism; they agree where the property says so,
+\* and junk changes nothing
+IsF == Family = "finders"
+FindersAgree == (IsF /\ AllPathBackedM /\ TypeComplete(Sr)) =>
+   LET a == FindAll(UIdx[FALSE][call.univ], Sr)
+       l == FindList(UList[call.univ], Sr)
+   IN a.pre => /\ a.res = l.res /\ a.err = l.err
+               /\ \A c \in Cfgs : FindPaths(c, UIdx[FALSE][call.univ][c], Sr).res = l.res
+JunkChangesNothing == IsF =>
+   /\ FindAll(UIdx[TRUE][call.univ], Sr) = FindAll(UIdx[FALSE][call.univ], Sr)
+   /\ \A c \in Cfgs : FindPaths(c, UIdx[TRUE][call.univ][c], Sr) = FindPaths(c, UIdx[FALSE][call.univ][c], Sr)
+   /\ EntriesOf(UIdx[TRUE][call.univ][DefaultCfg]) = EntriesOf(UIdx[FALSE][call.univ][DefaultCfg])
 \* C10 on the model: the algebra of the search syntax, for list search over the universe
 FLof(sr) == FindList(UniverseSeq(call.univ), sr)
 NaturalOf(e) == ResolveFirst(e)
